@@ -9,7 +9,7 @@
 #include "bbox.h"
 #include "allocshim.h"
 #include "memmodel.h"
-uint64_t in_w[8]; H3Index in_a, in_b; int in_d, in_mode, in_res; double in_f[8];
+uint64_t in_w[8]; H3Index in_a, in_b; int in_d, in_mode, in_res, in_nv; double in_f[8];
 #define COMMON_OBLIGATIONS(e) do { \
     __CPROVER_assert(vp_live == 0, "every block allocated has been freed on return (success and every error path)"); \
     __CPROVER_assert(!(vp_failed > 0) || (e) == E_MEMORY_ALLOC, "a failed allocation is reported as E_MEMORY_ALLOC"); \
@@ -94,12 +94,19 @@ void harness(void) {
     COMMON_OBLIGATIONS(e);
     if (vp_failed == 0) { int cnt = 0; for (int i = 0; i < 7; i++) if (out[i]) cnt++; __CPROVER_assert(e == E_SUCCESS && cnt == (spec_is_pentagon(a) ? 6 : 7), "k=1 disk complete when nothing fails"); }
 #elif defined(POLYEXP) || defined(POLYMAX) || defined(POLYLEGACY)
-    // polygon with 3 vertices and 0 or 1 hole of 3 vertices; arbitrary (finite or not) coordinates; S-GEO geometry
+    // polygon with 0-3 vertices (legacy: 3) and 0 or 1 hole of 3 vertices; arbitrary (finite or not) coordinates; S-GEO geometry
     LatLng v[3], hv[3];
     for (int i = 0; i < 3; i++) { v[i].lat = vp_double_i("in_f", 2 * i); v[i].lng = vp_double_i("in_f", 2 * i + 1); hv[i].lat = vp_next_double(); hv[i].lng = vp_next_double(); }
     GeoLoop hole = {.numVerts = 3, .verts = hv};
     int nh = in_d = NH;   // number of holes is a job parameter: a symbolic allocation size forces CBMC into its unbounded-array encoding
-    GeoPolygon poly = {.geoloop = {.numVerts = 3, .verts = v}, .numHoles = nh, .holes = &hole};
+    // the outer loop has 0-3 vertices (0 = the empty polygon, which the iterator short-circuits), a hole 3
+#if defined(POLYLEGACY)
+    int nv = in_nv = 3;
+#else
+    int nv = in_nv = vp_int("in_nv");
+    __CPROVER_assume(nv >= 0 && nv <= 3);
+#endif
+    GeoPolygon poly = {.geoloop = {.numVerts = nv, .verts = v}, .numHoles = nh, .holes = &hole};
     int res = in_res = vp_int("in_res"); uint32_t flags = (uint32_t)(in_mode = vp_int("in_mode"));
     __CPROVER_assume(res <= 2);   // stated bound (keeps the digit loops short); negative values exercise E_RES_DOMAIN
     VP_EXCLUDE();
